@@ -51,6 +51,15 @@ def ntheoryOps : Dispatcher := fun op args =>
 
 def fmtBoolList (r : Bool × List Nat) : String := fmtBool r.1 ++ " " ++ fmtNatList r.2
 
+/-- canonical form of an attached factor set: sorted, without repetition. -/
+def canonSet (l : List Nat) : List Nat := (l.mergeSort (· ≤ ·)).eraseDups
+
+/-- `any_weak key;key;…` with `key = result:factor set`. -/
+def fmtCheckBatch (r : Bool × List (Bool × List Nat)) : String :=
+  fmtBool r.1 ++ " " ++
+    (if r.2.isEmpty then "[]" else
+      ";".intercalate (r.2.map fun k => fmtBool k.1 ++ ":" ++ fmtNatList (canonSet k.2)))
+
 def factoringOps : Dispatcher := fun op args =>
   match op, args with
   | "rsa.fermat", [n, steps] => do
@@ -84,6 +93,27 @@ def factoringOps : Dispatcher := fun op args =>
   | "rsa.batchgcd", [vals, other] => do
       let vals ← parseNatList? vals; let other ← parseOptNat? other
       pure (fmtExcept fmtNatList (batchGCD vals other))
+  | "rsa.batchgcd.pinned", [vals, other] => do
+      let vals ← parseNatList? vals; let other ← parseOptNat? other
+      pure (fmtExcept fmtNatList (batchGCDPinned vals other))
+  | "rsa.batchgcd.with", [u, vals, other] => do
+      -- explicit enumeration order of set(values), as observed on the implementation
+      let u ← parseNatList? u; let vals ← parseNatList? vals; let other ← parseOptNat? other
+      pure (fmtExcept fmtNatList (batchGCDWith u vals other))
+  | "rsa.checkgcd", [ns] => do
+      let ns ← parseNatList? ns
+      pure (fmtExcept fmtCheckBatch (checkGCD ns))
+  | "rsa.checkgcd.pinned", [ns] => do
+      let ns ← parseNatList? ns
+      pure (fmtExcept fmtCheckBatch (checkGCDPinned ns))
+  | "rsa.checkgcdn1.pinned", [bound, ns] => do
+      let bound ← parseNat? bound; let ns ← parseNatList? ns
+      if ns.any (· == 0) then none else
+      pure (fmtExcept fmtCheckBatch (checkGCDN1Pinned bound ns))
+  | "rsa.checkgcdn1", [bound, ns] => do
+      let bound ← parseNat? bound; let ns ← parseNatList? ns
+      if ns.any (· == 0) then none else
+      pure (fmtExcept fmtCheckBatch (checkGCDN1 bound ns))
   | _, _ => none
 
 end Paranoid.Driver
